@@ -264,7 +264,7 @@ def part_same_as_plain(ctx):
             ctx.violation('same-as-plain:rejected-or-aborted', '{} {} | {}'
                           .format(r.errors.strip(), r.stops[:1], text), replay)
             continue
-        plain, others = None, []
+        plain, others, cells = None, [], []
         for e in r.log:
             if e[0] != 'dev' or e[-1] != 'ok':
                 continue
@@ -273,9 +273,12 @@ def part_same_as_plain(ctx):
             elif e[2] == 'set_zone_color':
                 others.append(('zone', list(e[3][2])))
             elif e[2] == 'SetTileState64':
-                for c in e[3][0]['colors']:
-                    if list(c) != [0, 0, 0, 0]:
-                        others.append(('cell', list(c)))
+                cells.extend(('cell', list(c)) for c in e[3][0]['colors'])
+        # cells no stage covers carry the default, black unless `set default`
+        # came first: they are left out -- unless the colour itself is black
+        # (raw 0.5 rounds to 0), in which case every cell must be black
+        others += [c for c in cells
+                   if plain == [0, 0, 0, 0] or c[1] != [0, 0, 0, 0]]
         if plain is None or not others:
             ctx.violation('same-as-plain:nothing-sent', text, replay)
             continue
